@@ -32,6 +32,8 @@ import (
 	galaxylister "tkestack.io/galaxy/pkg/ipam/client/listers/galaxy/v1alpha1"
 	"tkestack.io/galaxy/pkg/ipam/floatingip"
 	"tkestack.io/galaxy/pkg/ipam/schedulerplugin/util"
+	"tkestack.io/galaxy/pkg/utils/nets"
+	"k8s.io/apimachinery/pkg/util/sets"
 )
 
 // ASSUME: the API server is modelled by in-harness fakes: Get/Bind of a missing pod is NotFound; Bind with a UID precondition that does not match, or of an already bound pod, is Conflict; any single call may fail cleanly (no effect)
@@ -461,7 +463,7 @@ func vpNewWorld(topo int, withProvider bool) *vpWorld {
 func (w *vpWorld) configure() error {
 	pools, _, _ := floatingip.VTopology(w.topo)
 	err := w.plugin.ipam.ConfigurePool(pools)
-	floatingip.VerifRotate(w.plugin.ipam)
+	floatingip.VerifRotate(w.innerIPAM())
 	return err
 }
 
@@ -472,6 +474,7 @@ const (
 	vpKindDp
 	vpKindBare
 	vpKindTApp
+	vpKindDp2 // a second deployment "app2"
 )
 
 func vpCopyPod(in *corev1.Pod) *corev1.Pod {
@@ -499,6 +502,8 @@ func vpMakePod(name, uid string, kind int, policy, pool, ranges string) *corev1.
 		pod.OwnerReferences = []metav1.OwnerReference{{Kind: "ReplicaSet", Name: "app-rs1"}}
 	case vpKindTApp:
 		pod.OwnerReferences = []metav1.OwnerReference{{Kind: "TApp", Name: "tapp"}}
+	case vpKindDp2:
+		pod.OwnerReferences = []metav1.OwnerReference{{Kind: "ReplicaSet", Name: "app2-rs1"}}
 	}
 	if policy != "" {
 		pod.Annotations[constant.ReleasePolicyAnnotation] = policy
@@ -523,6 +528,8 @@ func vpPodNameOf(kind int, idx int) string {
 		return fmt.Sprintf("app-rs1-x%d", idx)
 	case vpKindTApp:
 		return fmt.Sprintf("tapp-%d", idx)
+	case vpKindDp2:
+		return fmt.Sprintf("app2-rs1-x%d", idx)
 	}
 	return fmt.Sprintf("bare-%d", idx)
 }
@@ -539,6 +546,9 @@ func int32p(i int32) *int32 { return &i }
 
 func (w *vpWorld) setDeployment(replicas int32) {
 	w.deployments["app"] = &appsv1.Deployment{ObjectMeta: metav1.ObjectMeta{Name: "app", Namespace: vpNS}, Spec: appsv1.DeploymentSpec{Replicas: int32p(replicas)}}
+}
+func (w *vpWorld) setDeployment2(replicas int32) {
+	w.deployments["app2"] = &appsv1.Deployment{ObjectMeta: metav1.ObjectMeta{Name: "app2", Namespace: vpNS}, Spec: appsv1.DeploymentSpec{Replicas: int32p(replicas)}}
 }
 func (w *vpWorld) setStatefulSet(replicas int32) {
 	w.statefulset["ss"] = &appsv1.StatefulSet{ObjectMeta: metav1.ObjectMeta{Name: "ss", Namespace: vpNS}, Spec: appsv1.StatefulSetSpec{Replicas: int32p(replicas)}}
@@ -666,7 +676,7 @@ func (w *vpWorld) apiRelease(ip string) error {
 	return nil
 }
 
-func (w *vpWorld) dump() []floatingip.VerifEntry { return floatingip.VerifDump(w.plugin.ipam, w.ips) }
+func (w *vpWorld) dump() []floatingip.VerifEntry { return floatingip.VerifDump(w.innerIPAM(), w.ips) }
 
 // ---------------------------------------------------------------- observation helpers
 
@@ -800,3 +810,88 @@ func (w *vpWorld) invProvider() bool {
 
 
 func vpIP(s string) net.IP { return net.ParseIP(s) }
+
+
+// ---------------------------------------------------------------- IPAM decorator: interference windows at IPAM calls
+
+// vpIPAMWrap delegates every IPAM call to the real crdIpam and opens an interference window right before and
+// right after it (the plugin only knows the IPAM through this interface). Used by the interleaving harnesses.
+type vpIPAMWrap struct {
+	floatingip.IPAM
+	w *vpWorld
+}
+
+func (i *vpIPAMWrap) AllocateSpecificIP(key string, ip net.IP, attr floatingip.Attr) error {
+	i.w.windowPoint()
+	defer i.w.windowPoint()
+	return i.IPAM.AllocateSpecificIP(key, ip, attr)
+}
+func (i *vpIPAMWrap) AllocateInSubnet(key string, n *net.IPNet, attr floatingip.Attr) (net.IP, error) {
+	i.w.windowPoint()
+	defer i.w.windowPoint()
+	return i.IPAM.AllocateInSubnet(key, n, attr)
+}
+func (i *vpIPAMWrap) AllocateInSubnetsAndIPRange(key string, n *net.IPNet, r [][]nets.IPRange, attr floatingip.Attr) ([]net.IP, error) {
+	i.w.windowPoint()
+	defer i.w.windowPoint()
+	return i.IPAM.AllocateInSubnetsAndIPRange(key, n, r, attr)
+}
+func (i *vpIPAMWrap) AllocateInSubnetWithKey(oldK, newK, subnet string, attr floatingip.Attr) error {
+	i.w.windowPoint()
+	defer i.w.windowPoint()
+	return i.IPAM.AllocateInSubnetWithKey(oldK, newK, subnet, attr)
+}
+func (i *vpIPAMWrap) ReserveIP(oldK, newK string, attr floatingip.Attr) (bool, error) {
+	i.w.windowPoint()
+	defer i.w.windowPoint()
+	return i.IPAM.ReserveIP(oldK, newK, attr)
+}
+func (i *vpIPAMWrap) UpdateAttr(key string, ip net.IP, attr floatingip.Attr) error {
+	i.w.windowPoint()
+	defer i.w.windowPoint()
+	return i.IPAM.UpdateAttr(key, ip, attr)
+}
+func (i *vpIPAMWrap) Release(key string, ip net.IP) error {
+	i.w.windowPoint()
+	defer i.w.windowPoint()
+	return i.IPAM.Release(key, ip)
+}
+func (i *vpIPAMWrap) ReleaseIPs(m map[string]string) (map[string]string, map[string]string, error) {
+	i.w.windowPoint()
+	defer i.w.windowPoint()
+	return i.IPAM.ReleaseIPs(m)
+}
+func (i *vpIPAMWrap) ByPrefix(prefix string) ([]*floatingip.FloatingIPInfo, error) {
+	i.w.windowPoint()
+	defer i.w.windowPoint()
+	return i.IPAM.ByPrefix(prefix)
+}
+func (i *vpIPAMWrap) ByKeyAndIPRanges(key string, r [][]nets.IPRange) ([]*floatingip.FloatingIPInfo, error) {
+	i.w.windowPoint()
+	defer i.w.windowPoint()
+	return i.IPAM.ByKeyAndIPRanges(key, r)
+}
+func (i *vpIPAMWrap) ByIP(ip net.IP) (floatingip.FloatingIP, error) {
+	i.w.windowPoint()
+	defer i.w.windowPoint()
+	return i.IPAM.ByIP(ip)
+}
+func (i *vpIPAMWrap) NodeSubnetsByIPRanges(r [][]nets.IPRange) (sets.String, error) {
+	i.w.windowPoint()
+	defer i.w.windowPoint()
+	return i.IPAM.NodeSubnetsByIPRanges(r)
+}
+
+// wrapIPAM makes every IPAM call of the plugin an interference window; dump()/VerifDump keep using the inner IPAM.
+func (w *vpWorld) wrapIPAM() {
+	if _, ok := w.plugin.ipam.(*vpIPAMWrap); !ok {
+		w.plugin.ipam = &vpIPAMWrap{IPAM: w.plugin.ipam, w: w}
+	}
+}
+
+func (w *vpWorld) innerIPAM() floatingip.IPAM {
+	if wr, ok := w.plugin.ipam.(*vpIPAMWrap); ok {
+		return wr.IPAM
+	}
+	return w.plugin.ipam
+}
